@@ -23,6 +23,20 @@ are answered differently, the view keeps the first answer that is not the `__mem
 
 spec (JSON, argv[2]):  {"label": "forward" | "reverse" | "random-<seed>-<k>", "enum_order": "forward" | "reverse" | "random",
                         "nesting": "enum-major" | "path-major" | "name-major" | "shuffled", "seed": <int, for random>}
+Optional `"lookalikes": {"when": <LOOKALIKE_WHEN>, "last": <LOOKALIKE_MEMBERS>, "rot": <int>}`: FOREIGN LOOK-ALIKES.  An
+application may define its own enumerations from the library's base classes (`class DataType(IntEnum)`,
+`@enum_bitmask(X) class XMask`) under the NAME of a protocol enumeration.  Before the sweep (before the package
+`fusion_engine_client.messages` is imported at all / after the import but before any protocol enumeration has been asked
+anything / after every protocol enumeration has been iterated once), for EVERY enumeration of the package the process
+defines - by executing ordinary `class` statements - application classes of the same `__name__` for every member
+variant of LOOKALIKE_MEMBERS (same number of members with other names and numbers, same names with permuted numbers,
+same numbers with other names, an identical copy, one member fewer / more, one fewer + a hidden entry from an unknown
+number) times every identity variant of LOOKALIKE_IDENT (`__module__` / `__qualname__` of an application module, of
+the protocol enumeration itself, of a class nested in a function), plus `@enum_bitmask` look-alikes of the mask
+classes, and uses each like a user would (iteration, len, reversed, `in`, look-ups by name / number / spelling, unknown
+numbers and names with and without raise_on_unrecognized).  The variant `last` is defined and used last.  The sweep
+then asks the PROTOCOL enumerations only (the look-alikes are not asked and not judged; what they answered about
+themselves is returned under `lookalikes.own_answers_wrong` as a note).
 The calls with `raise_on_unrecognized=False` add a member to the enumeration when the look-up fails; they are made
 in a last pass, for the names / numbers the enumeration itself defines only, so that they cannot disturb the sweep.
 """
@@ -121,6 +135,183 @@ def describe(r):
     return {'repr': repr(r), 'class': type(r).__name__, 'member': None, 'value': int(r)}
 
 
+LOOKALIKE_MEMBERS = ('same-count', 'same-names', 'same-values', 'identical', 'fewer', 'more', 'hidden-to-same-count')
+LOOKALIKE_IDENT = ('app-module', 'protocol-module', 'nested')
+LOOKALIKE_WHEN = ('before-import', 'before-sweep', 'after-first-use')
+
+
+def enum_inventory(classes):
+    """What a look-alike needs to know of every enumeration, read WITHOUT iterating it."""
+    inv = []
+    for c in sorted(classes, key=lambda c: (c.__name__, c.__module__, c.__qualname__)):
+        d = {'name': c.__name__, 'module': c.__module__, 'qualname': c.__qualname__,
+             'members': [[n, int(m)] for n, m in c.__members__.items()],
+             'unique': [[n, int(c.__members__[n])] for n in c._member_names_]}
+        if hasattr(c, '_enum_values') and hasattr(c, '_enum_offset'):
+            of = sorted(set(type(v).__name__ for v in c._enum_values))
+            d['mask'] = {'of': of[0] if len(of) == 1 else None, 'offset': int(c._enum_offset)}
+        inv.append(d)
+    return inv
+
+
+def inventory_in_child():
+    """The inventory as another fresh interpreter sees it (this process must not import the package yet)."""
+    p = subprocess.run([sys.executable, os.path.abspath(__file__), '--inventory'], env=dict(os.environ),
+                       stdout=subprocess.PIPE, stderr=subprocess.PIPE, text=True, timeout=300, stdin=subprocess.DEVNULL)
+    line = [ln for ln in p.stdout.split('\n') if ln.startswith('INVENTORY-RESULT: ')]
+    if p.returncode != 0 or not line:
+        raise SystemExit('inventory ended without a result: %s' % (p.stderr or p.stdout)[-400:])
+    return json.loads(line[-1][len('INVENTORY-RESULT: '):])
+
+
+def lookalike_members(variant, e):
+    """(members of the class statement, unknown number to convert with raise_on_unrecognized=False afterwards | None)."""
+    uniq, full = [tuple(x) for x in e['unique']], [tuple(x) for x in e['members']]
+    k = len(uniq)
+    top = max([v for _, v in full] + [0]) + 1
+    if variant == 'same-count':
+        return [('APP_KIND_%d' % i, top + i) for i in range(k)], None
+    if variant == 'same-names':
+        vals = [v for _, v in uniq]
+        vals = vals[1:] + vals[:1] if k > 1 else [v + 1 for v in vals]       # same names, same numbers, other pairing
+        return [(n, v) for (n, _), v in zip(uniq, vals)], None
+    if variant == 'same-values':
+        return [('APP_KIND_%d' % i, v) for i, (_, v) in enumerate(uniq)], None
+    if variant == 'identical':
+        return list(full), None
+    if variant == 'fewer':
+        return ([(n, v) for n, v in uniq[:-1]] if k > 1 else [('APP_KIND_0', top), ('APP_KIND_1', top + 1)]), None
+    if variant == 'more':
+        return list(uniq) + [('APP_EXTRA', top)], None
+    if variant == 'hidden-to-same-count':
+        return ([('APP_KIND_%d' % i, top + i) for i in range(k - 1)], top + k) if k > 1 else (None, None)
+    raise ValueError(variant)
+
+
+def lookalike_source(name, members, ident, e, base='IntEnum', deco=None):
+    body = ''.join('    %s = %d\n' % (n, v) for n, v in members) or '    pass\n'
+    src = '%sclass %s%s:\n%s' % ('@%s\n' % deco if deco else '', name, '(%s)' % base if base else '', body)
+    if ident == 'nested':
+        src = 'def make_application_enum():\n%s    return %s\n' % (''.join('    ' + ln + '\n' for ln in src.splitlines()), name)
+        return src, '__main__'
+    return src, ('app_enums' if ident == 'app-module' else e['module'])
+
+
+def define(src, module, name, ns_extra):
+    ns = dict(ns_extra, __name__=module)
+    exec(compile(src, '<application %s>' % module, 'exec'), ns)
+    return ns['make_application_enum']() if 'make_application_enum' in ns else ns[name]
+
+
+def use_lookalike(L, members, unknown, mutate, wrong, label):
+    """Use the application class like a user would; its answers about itself that are wrong go to `wrong` (notes only)."""
+    want = []
+    for n, v in members:
+        if v not in [x for _, x in want]:
+            want.append((n, v))
+
+    def rounds(expect):
+        got = [(m.name, int(m)) for m in L]
+        if got != expect:
+            wrong.append('%s: list() = %s, defined %s' % (label, got[:6], expect[:6]))
+        if len(L) != len(expect):
+            wrong.append('%s: len() = %d, defined %d' % (label, len(L), len(expect)))
+        if [(m.name, int(m)) for m in reversed(L)] != expect[::-1]:
+            wrong.append('%s: reversed() differs from the definition' % label)
+        for n, v in expect[:3] + expect[-3:]:
+            if v not in L or getattr(L, n) not in L:
+                wrong.append('%s: %s not in the class' % (label, n))
+
+    rounds(want)
+    for n, v in members[:4] + members[-4:]:
+        for f in (lambda: L[n], lambda: L(n), lambda: L(v), lambda: L[v], lambda: getattr(L, n), lambda: L[_lower_if_upper(n)],
+                  lambda: L.from_string(n.lower(), case_insensitive=True), lambda: L(n, raise_on_unrecognized=False),
+                  lambda: L(v, raise_on_unrecognized=False)):
+            try:
+                if int(f()) != v:
+                    wrong.append('%s: a look-up of %s gave %d' % (label, n, int(f())))
+            except Exception as ex:  # noqa: BLE001
+                wrong.append('%s: a look-up of %s raised %s' % (label, n, type(ex).__name__))
+    far = max([v for _, v in members] + [0]) + 1000
+    for f in (lambda: L(far), lambda: L[far], lambda: L('APP_NO_SUCH_NAME'), lambda: L['APP_NO_SUCH_NAME'],
+              lambda: L.from_string('app_no_such_name', case_insensitive=True)):
+        try:
+            f()
+            wrong.append('%s: an unknown name / number resolved' % label)
+        except (KeyError, ValueError):
+            pass
+    if unknown is not None:
+        L(unknown, raise_on_unrecognized=False)
+    if mutate:
+        L(far + 1, raise_on_unrecognized=False)
+        rounds(want)
+        L('APP_LATE_NAME', raise_on_unrecognized=False)
+        if 'APP_LATE_NAME' not in [n for n, _ in want]:
+            want = want + [('APP_LATE_NAME', int(L.APP_LATE_NAME))]
+    rounds(want)
+
+
+def lookalikes(cfg, inv):
+    """Define and use the application classes; -> (the classes [kept alive], report)."""
+    from fusion_engine_client.utils.enum_utils import IntEnum, enum_bitmask
+    last = cfg.get('last', 'same-count')
+    rot = int(cfg.get('rot', 0))
+    variants = [v for v in LOOKALIKE_MEMBERS if v != last] + [last]
+    idents = [LOOKALIKE_IDENT[(i + rot) % len(LOOKALIKE_IDENT)] for i in range(len(LOOKALIKE_IDENT))]
+    by_name = dict((e['name'], e) for e in inv)
+    keep, wrong, sources, failed = [], [], {}, []
+    n = 0
+    for variant in variants:
+        for ident in idents:
+            made = {}
+            for e in inv:
+                if e.get('mask'):
+                    continue
+                members, unknown = lookalike_members(variant, e)
+                if members is None:
+                    continue
+                src, module = lookalike_source(e['name'], members, ident, e)
+                label = 'application %s (%s, %s)' % (e['name'], variant, ident)
+                try:
+                    L = define(src, module, e['name'], {'IntEnum': IntEnum})
+                    keep.append(L)
+                    made[e['name']] = L
+                    n += 1
+                    use_lookalike(L, members, unknown, variant != last, wrong, label)
+                except Exception as ex:  # noqa: BLE001
+                    failed.append('%s: %s: %s' % (label, type(ex).__name__, ex))
+                if variant == last and ident == idents[-1]:
+                    sources[e['name']] = ('# __name__ = %r\n' % module) + src + (
+                        '%s = make_application_enum()\n' % e['name'] if ident == 'nested' else '') + (
+                        '%s(%d, raise_on_unrecognized=False)\n' % (e['name'], unknown) if unknown is not None else '') + (
+                        'list(%s); len(%s); list(reversed(%s))  # ...\n' % ((e['name'],) * 3))
+            for e in inv:
+                of = (e.get('mask') or {}).get('of')
+                if of not in made:
+                    continue
+                X = made[of]
+                off = min([e['mask']['offset']] + [int(m) for m in X.__members__.values()])
+                src, module = lookalike_source(e['name'], [], ident, e, base=None, deco='enum_bitmask(X, offset=%d)' % off)
+                label = 'application %s (@enum_bitmask of the %s %s, %s)' % (e['name'], variant, of, ident)
+                try:
+                    M = define(src, module, e['name'], {'enum_bitmask': enum_bitmask, 'X': X})
+                    keep.append(M)
+                    n += 1
+                    members = [(k, int(v)) for k, v in M.__members__.items()]
+                    use_lookalike(M, members, None, variant != last, wrong, label)
+                    xs = [m for m in X][:5]
+                    if M.to_values(M.to_bitmask(xs)) != xs:
+                        wrong.append('%s: to_values(to_bitmask(x)) != x' % label)
+                    M.to_string(M.to_bitmask(xs))
+                except Exception as ex:  # noqa: BLE001
+                    failed.append('%s: %s: %s' % (label, type(ex).__name__, ex))
+                if variant == last and ident == idents[-1]:
+                    sources[e['name']] = ('# __name__ = %r; X = the application %s above\n' % (module, of)) + src
+    return keep, {'when': cfg['when'], 'last': last, 'variants': variants, 'idents': idents, 'classes_defined': n,
+                  'last_defined': sources, 'own_answers_wrong': wrong[:40], 'own_answers_wrong_total': len(wrong),
+                  'not_definable': failed[:40]}
+
+
 def sweep(spec):
     import fusion_engine_client
     import c03_py_extract as px
@@ -128,12 +319,37 @@ def sweep(spec):
     f = os.path.realpath(fusion_engine_client.__file__)
     if not f.startswith(os.path.realpath(repo) + os.sep):
         raise SystemExit('fusion_engine_client imported from outside %s: %s' % (repo, f))
+    lk = spec.get('lookalikes')
+    foreign, lk_keep, lk_report = set(), None, None
+
+    def lookalike_stage(inv):
+        import gc
+        from fusion_engine_client.utils.enum_utils import IntEnum as base_cls
+        gc.collect()
+        pre = set(px.all_subclasses(base_cls))
+        keep, report = lookalikes(lk, inv)
+        gc.collect()
+        return keep, report, set(px.all_subclasses(base_cls)) - pre
+
+    if lk and lk['when'] == 'before-import':
+        if any(m == PKG or m.startswith(PKG + '.') for m in sys.modules):
+            raise SystemExit('%s is imported already' % PKG)
+        lk_keep, lk_report, foreign = lookalike_stage(inventory_in_child())
     importlib.import_module(PKG)
     for p in px.source_paths(repo):
         b = os.path.basename(p)[:-3]
         importlib.import_module(PKG if b == '__init__' else PKG + '.' + b)
     from fusion_engine_client.utils.enum_utils import IntEnum
-    classes = sorted(px.all_subclasses(IntEnum), key=lambda c: (c.__name__, c.__module__, c.__qualname__))
+    if lk and lk['when'] != 'before-import':
+        protocol = px.all_subclasses(IntEnum)
+        if lk['when'] == 'after-first-use':
+            for c in sorted(protocol, key=lambda c: c.__name__):
+                list(c), len(c), list(reversed(c))
+        elif lk['when'] != 'before-sweep':
+            raise SystemExit('lookalikes.when: %r' % lk['when'])
+        lk_keep, lk_report, foreign = lookalike_stage(enum_inventory(protocol))
+    classes = sorted((c for c in px.all_subclasses(IntEnum) if c not in foreign),
+                     key=lambda c: (c.__name__, c.__module__, c.__qualname__))
     if any(a.__name__ == b.__name__ for a, b in zip(classes, classes[1:])):
         raise SystemExit('two IntEnum classes share a name')
     # what every enumeration is before anybody asked anything
@@ -276,7 +492,8 @@ def sweep(spec):
             'paths': [{'path': p[0], 'kind': p[1], 'expression': p[2], 'by_value': p[0] in BY_VALUE} for p in paths],
             'enums_in_package': in_pkg, 'enums_asked': len(classes), 'names_asked': len(all_names),
             'numbers_asked': len(all_values), 'asks': n_asked, 'views': views, 'details': details,
-            'details_truncated': len(details) >= 4000, 'extras': extras, 'extras_total': n_extras[0]}
+            'details_truncated': len(details) >= 4000, 'extras': extras, 'extras_total': n_extras[0],
+            'lookalikes': lk_report}
 
 
 def run_sweep(repo, spec, timeout=600):
@@ -333,6 +550,23 @@ FIXED_SPECS = [{'label': 'forward', 'enum_order': 'forward', 'nesting': 'enum-ma
                {'label': 'reverse', 'enum_order': 'reverse', 'nesting': 'enum-major'}]
 
 
+def lookalike_spec(when, last, rot=0, order='forward'):
+    return {'label': 'lookalikes-%s-%s-%d-%s' % (when, last, rot, order), 'enum_order': order, 'nesting': 'enum-major',
+            'lookalikes': {'when': when, 'last': last, 'rot': rot}}
+
+
+def lookalike_specs(seed, thorough):
+    """Quick: every moment x the member variants with the protocol's member count last (the others are defined and used
+    before them in the same process) + one seeded pick of the rest; thorough: every moment x every variant last."""
+    rng = random.Random(seed * 7919 + 3)
+    if thorough:
+        return [lookalike_spec(w, v, rng.randrange(3), ('forward', 'reverse')[(i + j) % 2])
+                for i, w in enumerate(LOOKALIKE_WHEN) for j, v in enumerate(LOOKALIKE_MEMBERS)]
+    specs = [lookalike_spec(w, v, rng.randrange(3)) for w in LOOKALIKE_WHEN for v in ('same-count', 'hidden-to-same-count')]
+    rest = [v for v in LOOKALIKE_MEMBERS if v not in ('same-count', 'hidden-to-same-count')]
+    return specs + [lookalike_spec(rng.choice(LOOKALIKE_WHEN), rng.choice(rest), rng.randrange(3), 'reverse')]
+
+
 def random_spec(seed, k):
     return {'label': 'random-%d-%d' % (seed, k), 'enum_order': 'random', 'seed': seed * 1009 + k,
             'nesting': ('shuffled', 'name-major', 'path-major', 'enum-major')[k % 4]}
@@ -344,6 +578,14 @@ if __name__ == '__main__':
     if len(sys.argv) == 3 and sys.argv[1] == '--sweep':
         res = sweep(json.loads(sys.argv[2]))
         print('SWEEP-RESULT: ' + json.dumps(res))
+    elif len(sys.argv) == 2 and sys.argv[1] == '--inventory':
+        import c03_py_extract as px_
+        importlib.import_module(PKG)
+        for p_ in px_.source_paths(os.environ.get('FE_REPO', '/repo')):
+            b_ = os.path.basename(p_)[:-3]
+            importlib.import_module(PKG if b_ == '__init__' else PKG + '.' + b_)
+        from fusion_engine_client.utils.enum_utils import IntEnum as IntEnum_
+        print('INVENTORY-RESULT: ' + json.dumps(enum_inventory(px_.all_subclasses(IntEnum_))))
     elif len(sys.argv) == 3 and sys.argv[1] == '--steps':
         print('STEPS-RESULT: ' + json.dumps(steps(json.loads(sys.argv[2]))))
     else:
